@@ -9,6 +9,8 @@ Driver commands of group `frontend` (C10).
 `(err frontend <Variant>…)`: the outcome class of `frontend::parse` minus the text parser
 (`parse_doc` + the `IndexedQuery` conversion) against the schema described by `<view>`; the
 `<schema-id>` only tells the harness which real schema to load.
+`(view-valid <schema-id> <view>)` answers `1`/`0`: whether the view satisfies the hypothesis
+`ValidSchemaView` of the totality theorems (decided by `validSchemaViewB`).
 `(text-nopanic <hex>)` answers the constant `nopanic` (the byte-level stream explores the external
 text parser, which is not modelled; the implementation answers `nopanic` or `panic`).
 
@@ -214,6 +216,9 @@ def handleFrontend : String → List Sexp → Option String
     pure (match compile view doc with
       | .panic s => (repr s).pretty
       | r => renderCompile r)
+  | "view-valid", [.atom _, v] => do
+    let view ← toSchemaView v
+    pure (if validSchemaViewB view then "1" else "0")
   | "text-nopanic", [.atom _] => some "nopanic"
   | _, _ => none
 
